@@ -32,6 +32,7 @@ type insertion struct {
 	text  string
 	open  bool // opening text (prefix) or closing text (suffix)
 	other int  // the other end of the wrapped expression (for ordering nested wraps)
+	seq   int  // order of creation: of two wraps of the same source range the outer one is created first
 }
 
 type memInstr struct {
@@ -110,6 +111,9 @@ func (m *memInstr) apply(path string) string {
 	src := m.src[path]
 	// order: by offset; at one offset closings before openings; among openings the outer expression
 	// (larger end) first; among closings the inner expression (larger start) first
+	for i := range ins {
+		ins[i].seq = i
+	}
 	sort.SliceStable(ins, func(i, j int) bool {
 		a, b := ins[i], ins[j]
 		if a.off != b.off {
@@ -118,10 +122,13 @@ func (m *memInstr) apply(path string) string {
 		if a.open != b.open {
 			return !a.open
 		}
-		if a.open {
+		if a.other != b.other {
 			return a.other > b.other
 		}
-		return a.other > b.other
+		if a.open {
+			return a.seq < b.seq
+		}
+		return a.seq > b.seq
 	})
 	var sb strings.Builder
 	last := 0
@@ -150,8 +157,75 @@ func (m *memInstr) wrap(e ast.Expr, write bool) {
 	text = strings.Join(strings.Fields(text), " ")
 	m.sites = append(m.sites, fmt.Sprintf("%s of %s at %s:%d", kind, text, filepath.Base(p0.Filename), p0.Line))
 	m.ins[p0.Filename] = append(m.ins[p0.Filename],
-		insertion{p0.Offset, "(*" + fn + "(&", true, p1.Offset},
-		insertion{p1.Offset, fmt.Sprintf(",%d))", id), false, p0.Offset})
+		insertion{p0.Offset, "(*" + fn + "(&", true, p1.Offset, 0},
+		insertion{p1.Offset, fmt.Sprintf(",%d))", id), false, p0.Offset, 0})
+	m.stats[kind]++
+}
+
+// externalCallee reports whether the call runs code outside the instrumented package (a function or
+// method of another package, incl. interface methods such as io.Writer.Write, or the builtin copy),
+// and which argument positions that code writes through (by name: copy's destination, Put*, Read*).
+func (m *memInstr) externalCallee(c *ast.CallExpr) (bool, func(int) bool) {
+	never := func(int) bool { return false }
+	var obj types.Object
+	switch f := c.Fun.(type) {
+	case *ast.Ident:
+		obj = m.info.Uses[f]
+	case *ast.SelectorExpr:
+		if sel := m.info.Selections[f]; sel != nil {
+			if sel.Kind() != types.MethodVal {
+				return false, never // a func-typed field
+			}
+			obj = sel.Obj()
+		} else {
+			obj = m.info.Uses[f.Sel]
+		}
+	default:
+		return false, never
+	}
+	switch o := obj.(type) {
+	case *types.Builtin:
+		if o.Name() == "copy" {
+			return true, func(i int) bool { return i == 0 }
+		}
+		return false, never
+	case *types.Func:
+		if o.Pkg() == m.pkg {
+			return false, never
+		}
+		n := o.Name()
+		if o.Pkg() != nil && o.Pkg().Path() == "sort" && !strings.HasPrefix(n, "Search") && !strings.Contains(n, "Sorted") {
+			return true, func(int) bool { return true }
+		}
+		if strings.HasPrefix(n, "Put") || n == "Read" || n == "ReadFull" || n == "ReadAtLeast" || n == "ReadAt" {
+			return true, func(int) bool { return true }
+		}
+		return true, never
+	}
+	return false, never
+}
+
+// wrapSlice routes a slice-valued argument through verifSl, which reports an access to its elements.
+func (m *memInstr) wrapSlice(e ast.Expr, write bool) {
+	if t := m.typeOf(e); t == nil {
+		return
+	}
+	p0 := m.fset.Position(e.Pos())
+	p1 := m.fset.Position(e.End())
+	id := len(m.sites)
+	kind := "read by callee"
+	if write {
+		kind = "write by callee"
+	}
+	text := string(m.src[p0.Filename][p0.Offset:p1.Offset])
+	if len(text) > 60 {
+		text = text[:60] + "…"
+	}
+	text = strings.Join(strings.Fields(text), " ")
+	m.sites = append(m.sites, fmt.Sprintf("%s of the elements of %s at %s:%d", kind, text, filepath.Base(p0.Filename), p0.Line))
+	m.ins[p0.Filename] = append(m.ins[p0.Filename],
+		insertion{p0.Offset, "verifSl(", true, p1.Offset, 0},
+		insertion{p1.Offset, fmt.Sprintf(",%d,%v)", id, write), false, p0.Offset, 0})
 	m.stats[kind]++
 }
 
@@ -305,7 +379,18 @@ func (m *memInstr) expr(e ast.Expr, ctx int) {
 		m.expr(x.Y, cValue)
 	case *ast.CallExpr:
 		m.expr(x.Fun, cValue)
-		for _, a := range x.Args {
+		ext, wr := m.externalCallee(x)
+		for i, a := range x.Args {
+			if ext {
+				// a slice handed to code outside the package (encoding/binary, io.Writer, copy ...):
+				// its elements are accessed there, where no instrumentation sees them
+				// (created before the wraps inside the argument: it is the outer one)
+				if t := m.typeOf(a); t != nil {
+					if _, ok := t.Underlying().(*types.Slice); ok {
+						m.wrapSlice(a, wr(i))
+					}
+				}
+			}
 			m.expr(a, cValue)
 		}
 	case *ast.SliceExpr:
@@ -453,6 +538,25 @@ func verifRd[T any](p *T, site uint32) *T {
 func verifWr[T any](p *T, site uint32) *T {
 	vsched.MemAccess(unsafe.Pointer(p), unsafe.Sizeof(*p), true, site)
 	return p
+}
+
+// verifSl reports an access to the elements of a slice that is passed to code outside the package
+// (first 4 KB, in 64-byte pieces) and returns the slice unchanged.
+func verifSl[S ~[]E, E any](s S, site uint32, write bool) S {
+	if n := len(s); n > 0 {
+		sz := unsafe.Sizeof(s[0]) * uintptr(n)
+		if sz > 4096 {
+			sz = 4096
+		}
+		for off := uintptr(0); off < sz; off += 64 {
+			k := sz - off
+			if k > 64 {
+				k = 64
+			}
+			vsched.MemAccess(unsafe.Add(unsafe.Pointer(&s[0]), off), k, write, site)
+		}
+	}
+	return s
 }
 
 func init() {
